@@ -112,6 +112,8 @@ pub enum ReadMode {
     All,
     /// read about n bytes then drop the RecvStream (other handles may live on)
     StopAfter(usize),
+    /// hold the RecvStream without reading until the scenario gate opens, then read everything (raw scripts)
+    AfterGate,
 }
 
 #[derive(Debug, Clone, Copy, PartialEq, Eq)]
